@@ -172,6 +172,64 @@ def check_one(inp):
                     except Exception as e:  # noqa
                         outs.append(('raise', type(e).__name__))
                 diff(label + ('' if cfg else '/no-settings'), outs[0], outs[1])
+    elif fn == 'create_dzn_elements':
+        from dznpy.adv_shell.port_selection import PortsCfg, PortsSemanticsCfg, PortSelect, PortWildcard, MultiClientPortCfg
+        from dznpy.adv_shell.common import Configuration, FacilitiesOrigin
+        from dznpy.adv_shell.types import AdvShellError
+        from dznpy.ast_view import FindError
+        from specs import port_selection as PSPEC
+        W = PortWildcard
+        f = M.formal
+        doc = M.root([M.namespace('My', [
+            M.extern('T', 'int'), M.enum('Result', ['Ok', 'Busy']),
+            M.interface('IPlain', [M.event('Start', 'in'), M.event('Done', 'out')]),
+            M.interface('IMc', [M.event('Claim', 'in', 'Result'), M.event('Release', 'in'), M.event('Fail', 'out')]),
+            M.component('Exposed', [M.port('api', 'IMc', 'provides'), M.port('ctl', 'IPlain', 'provides'),
+                                    M.port('cord', 'IPlain', 'requires'), M.port('log', 'IPlain', 'requires', True),
+                                    M.port('aux', 'IPlain', 'requires')]),
+            M.component('Broken', [M.port('p', 'INoSuch', 'provides')])])])
+        fct2 = M.parse(doc)
+        encs = {c.name.value.items[-1]: c for c in fct2.components}
+        sel = lambda v: PortSelect(v)
+        sides_p = [(W.NONE, W.ALL), (W.ALL, W.NONE), (W.NONE, {'api', 'ctl'}), (W.NONE, {'api'}), (W.NONE, {'api', 'nope'})]
+        sides_r = [(W.NONE, W.ALL), (W.ALL, W.NONE), ({'cord', 'aux'}, W.NONE), ({'cord'}, W.REMAINING), ({'cord'}, W.NONE),
+                   ({'cord', 'aux', 'log'}, W.NONE), (W.NONE, {'cord', 'aux', 'zzz'})]
+        mcs = [None, MultiClientPortCfg('api', 'Claim', ns_ids_t('Ok'), 'Release'),
+               MultiClientPortCfg('ctl', 'Claim', ns_ids_t('Ok'), 'Release'),
+               MultiClientPortCfg('nope', 'Claim', ns_ids_t('Ok'), 'Release')]
+        k = 0
+        for enc_name in ('Exposed', 'Broken'):
+            enc2 = encs[enc_name]
+            for sp, sr, mc in itertools.product(sides_p, sides_r, mcs):
+                k += 1
+                label = f'case{k}'
+                if only is not None and only != label:
+                    continue
+                try:
+                    pcfg = PortsCfg(PortsSemanticsCfg(sel(sp[0]), sel(sp[1])), PortsSemanticsCfg(sel(sr[0]), sel(sr[1])), mc)
+                except AdvShellError:
+                    continue        # not a configuration (C03's own subject)
+                cfg = Configuration('M.dzn', fct2, 'AdvShell', ns_ids_t(['My', enc_name]), pcfg, FacilitiesOrigin.CREATE, 'c')
+                prov = {p.name for p in enc2.ports.elements if p.direction == ast.PortDirection.PROVIDES}
+                reqs = {p.name for p in enc2.ports.elements if p.direction == ast.PortDirection.REQUIRES}
+                exposed = [(p, pcfg.provides if p.name in prov else pcfg.requires) for p in enc2.ports.elements
+                           if p.name in prov or not p.injected.value]
+                accept = enc_name == 'Exposed' and \
+                    (PSPEC.names(pcfg.provides.sts) | PSPEC.names(pcfg.provides.mts)) <= prov and \
+                    (PSPEC.names(pcfg.requires.sts) | PSPEC.names(pcfg.requires.mts)) <= reqs and \
+                    all(PSPEC.covered(side, p.name) for p, side in exposed)
+                if accept and mc is not None:
+                    # the settings must name a provides port whose interface carries the claim / release events
+                    accept = mc.port_name == 'api' and PSPEC.sem(pcfg.provides, 'api').name == 'MTS'
+                try:
+                    r = P.create_dzn_elements(cfg, fct2, enc2)
+                    got = ('return', (r.provides_ports, r.requires_ports))
+                except (AdvShellError, FindError) as ex:
+                    got = ('rejected', None)
+                except Exception as ex:  # noqa
+                    got = ('internal error', f'{type(ex).__name__}: {ex}')
+                want = ('return', S.exposed_ports(cfg, fct2, enc2)) if accept else ('rejected', None)
+                diff(f'{label}: {enc_name} provides={sp} requires={sr} multiclient={mc.port_name if mc else None}', got, want)
     elif fn == 'create_final_construct_fn':
         prov = [(l, p) for l, p in ports.items() if p.dzn_port_itf.port.direction == ast.PortDirection.PROVIDES]
         reqs = [(l, p) for l, p in ports.items() if p.dzn_port_itf.port.direction == ast.PortDirection.REQUIRES]
